@@ -18,6 +18,7 @@ Definition pipeline_of (pkg lang : string) : pipeline :=
   if String.eqb pkg "magic_numbers" then (if String.eqb lang "ts" then PSharedGenericTs magic_generic_ts else PSharedGeneric magic_generic_hash)
   else if String.eqb pkg "print_statements" then (if String.eqb lang "ts" then PSharedGenericTs print_generic_ts else PSharedGeneric print_generic_hash)
   else if String.eqb pkg "method_property" then POwnLine method_property_needles
+  else if smem pkg ["collection_pipeline"; "stateless_class"] then PSharedTl tl_needles
   else if smem pkg ["nesting"; "srp"; "performance"] then PShared
   else PNone.
 
